@@ -8,6 +8,7 @@ from rules import c02 as C02
 from rules import anchors as A
 
 _SPLIT = [None]   # path of the QName splitter of the tree being analysed (set in run)
+_SPLIT_KEYS = ["0", "1"]   # how its result is taken apart: (key of the local name, key of the prefix)
 
 XSD_NS = "http://www.w3.org/2001/XMLSchema"
 NS_PARAM_TY = "std::option::Option<&model::Namespace>"
@@ -23,7 +24,7 @@ def _prefix_unbound(CE, cond, branch):
         return False
 
     def prefix(n):
-        return isinstance(n, tuple) and ((n[0] == "field" and n[2] == "1" and isinstance(n[1], tuple) and n[1][0] == "call" and str(n[1][1]) == _SPLIT[0])
+        return isinstance(n, tuple) and ((n[0] == "field" and n[2] == _SPLIT_KEYS[1] and isinstance(n[1], tuple) and n[1][0] == "call" and str(n[1][1]) == _SPLIT[0])
                                          or any(prefix(x) for x in n if isinstance(x, tuple)))
     positive = False
     for call in og.nf_calls(c):
@@ -71,8 +72,20 @@ def rule_global_components_only(ck, F, rule="R3"):
 
         def has_schema_lit(n):
             return any(y.get("k") == "Lit" and y.get("lit") == "str" and y.get("v") == "schema" for y in Hh_.exprs(n))
+        def own_schema_test(n):
+            """the closure's own body compares with "schema" (not a closure nested inside it: that one is recorded at the adaptor
+            call that takes it)"""
+            if isinstance(n, list):
+                return any(own_schema_test(y) for y in n)
+            if not isinstance(n, dict):
+                return False
+            if n.get("k") == "Closure":
+                return False
+            if n.get("k") == "Lit" and n.get("lit") == "str" and n.get("v") == "schema":
+                return True
+            return any(own_schema_test(v) for v in n.values() if isinstance(v, (dict, list)))
         for x in Hh_.exprs(nb["value"]):
-            if x.get("k") == "MethodCall" and any(Hh_.strip(a).get("k") == "Closure" and has_schema_lit(Hh_.strip(a)["body"]["value"]) for a in x["args"]):
+            if x.get("k") == "MethodCall" and any(Hh_.strip(a).get("k") == "Closure" and own_schema_test(Hh_.strip(a)["body"]["value"]) for a in x["args"]):
                 evidence.append((Hh_.sp(x), Hh_.describe(x["recv"])))
             elif x.get("k") == "Binary" and x.get("op") in ("Eq", "Ne") and has_schema_lit(x) and not any(y.get("k") == "Closure" for y in Hh_.exprs(x)):
                 other = [y for y in Hh_.exprs(x) if y.get("k") == "Path" and y.get("res") == "local"]
@@ -115,6 +128,7 @@ def run(ck, F):
     ck.rule("R6", "prefix tables are not overwritten by imports")
     CE = og.CallExpander(F)
     _SPLIT[0] = A.qname_splitter(F)
+    _SPLIT_KEYS[:] = list(A.qname_parts(F))
     # ---- R1
     SPLIT = A.qname_splitter(F)
     RESOLVE = A.qname_resolver(F)
@@ -129,6 +143,8 @@ def run(ck, F):
             try:
                 v = fde.Evaluator({("param", "t"): inp}).ev(nf)
                 got = (v[1][0], v[1][1]) if isinstance(v, tuple) and v[0] == "tuple" else v
+                if isinstance(v, dict) and set(_SPLIT_KEYS) <= set(v):
+                    got = (v[_SPLIT_KEYS[0]], v[_SPLIT_KEYS[1]])      # the pair as a struct
             except fde.Undecided as u:
                 ck.undecided("R1", f"split:{inp!r}", (F.lib.body(SPLIT) or {}).get("span", "-"), f"{s_short} not evaluable: {u}")
                 continue
